@@ -470,9 +470,12 @@ func (c *Client) Disconnect(quit <-chan struct{}) error {
 		writeErr := writeTo(conn, packetDISCONNECT, c.PauseTimeout)
 		closeErr := conn.Close()
 		if writeErr != nil {
-			return fmt.Errorf("%w; DISCONNECT lost", writeErr)
+			return fmt.Errorf("%w; DISCONNECT lost", errors.Join(ErrSubmit, writeErr))
 		}
-		return closeErr
+		if closeErr != nil {
+			return fmt.Errorf("%w; DISCONNECT in limbo", errors.Join(ErrSubmit, closeErr))
+		}
+		return nil
 	}
 }
 
